@@ -19,6 +19,7 @@ import Driver.SemK
 import Driver.SemP
 import Driver.Ex
 import Driver.TG
+import Driver.LK
 import Driver.Misc
 import Driver.Load
 /-!
@@ -192,6 +193,7 @@ def handle (line : String) : String :=
   | "semp" :: _ => DSemP.handle (restOf line)
   | "ex" :: _ => DEx.handle line
   | "tg" :: _ => DTG.handle line
+  | "lk" :: _ => DLK.handle line
   | "ast" :: r => DMisc.ast r
   | "rgx" :: r => DMisc.rgx r
   | _ => "bad-op"
